@@ -241,6 +241,35 @@ fn run(cfg: &RunCfg) -> Report {
         }
         rep.class_n("observe-N-queries-observe-histories", nh);
     }
+    // marathon: 66 000 complete walks on one context, every response judged (a counter of completed
+    // enumerations in 16 bits wraps here)
+    if !small && sh == 2 % ns {
+        let c = gen_cfg(&mut rng, 3, None);
+        let m = Model::new(&c);
+        let own = c.addr & 0x7F;
+        with_contexts(std::slice::from_ref(&c), |ctxs| {
+            let ctx = &mut ctxs[0];
+            'outer: for w in 0..66_000u32 {
+                for sel in 0..3u8 {
+                    let req = ctrl_request(own, 0x33, 0, false, 0x06, &[sel]);
+                    let obs = exec(ctx, &Op::Process(req.clone()), 64, w as u64);
+                    rep.eval();
+                    let mut want = vec![0x00u8, if sel == 2 { 0xFF } else { sel + 1 }];
+                    want.extend_from_slice(&m.vendor_field(sel as usize));
+                    let ok = obs.resp.as_ref().and_then(|r| view(r).map(|v| v.cmd == 0x06 && v.data == &want[..])).unwrap_or(false);
+                    if !ok {
+                        rep.violation(
+                            "walk:marathon",
+                            || format!("walk number {} on one context, selector {}: {} / response {:?}, expected data {}", w + 1, sel, obs.proc.as_ref().map(|p| p.brief()).unwrap_or_default(), obs.resp.as_ref().map(|r| crate::json::hex(r)), crate::json::hex(&want)),
+                            || format!("walk|{}|{:x}|", c.encode(), w),
+                        );
+                        break 'outer;
+                    }
+                }
+            }
+        });
+        rep.class("marathon-of-66000-walks");
+    }
     let n = if small { 3 } else { cfg.n(cfg.pick(120_000, 3_000_000)) / ns };
     for _ in 0..n {
         let nv = 1 + rng.below(16) as usize;
